@@ -809,6 +809,10 @@ func (t *sourceTracer) TransitionEnd(tx *am.Transition) {
 	if s.syncShallowClocks {
 		mTime = am.NewTime(mTime, mTime.ActiveStates(nil))
 		trackedTSum = mTime.Sum(nil)
+		// with a synced schema the time slice covers all the states
+		if s.syncSchema {
+			trackedTSum = mTime.Filter(t.trackedStateIdxs).Sum(nil)
+		}
 	}
 
 	// update
